@@ -172,15 +172,17 @@ func (p *seqProxy) VerifyBatch(ctx context.Context, req coresequencer.VerifyBatc
 
 // Config is one configuration of the concurrent world.
 type Config struct {
-	ID         int           `json:"id"`
-	Blocks     uint64        `json:"target_blocks"`
-	BlockTime  time.Duration `json:"block_time"`
-	DATime     time.Duration `json:"da_block_time"`
-	Lazy       bool          `json:"lazy"`
-	MaxPending uint64        `json:"max_pending"`
-	DAFaultPct int           `json:"da_fault_pct"`
-	DADelayUs  int           `json:"da_delay_us"`
-	Seed       int64         `json:"seed"`
+	ID          int           `json:"id"`
+	Blocks      uint64        `json:"target_blocks"`
+	BlockTime   time.Duration `json:"block_time"`
+	DATime      time.Duration `json:"da_block_time"`
+	Lazy        bool          `json:"lazy"`
+	MaxPending  uint64        `json:"max_pending"`
+	DAFaultPct  int           `json:"da_fault_pct"`
+	DADelayUs   int           `json:"da_delay_us"`
+	ExecDelayUs int           `json:"exec_delay_us"` // the execution client takes up to this long per call
+	InjectGaps  bool          `json:"inject_gaps"`   // the mempool runs dry now and then: empty blocks between full ones
+	Seed        int64         `json:"seed"`
 }
 
 type loopSet struct {
@@ -281,6 +283,19 @@ func runUniverse(r *vk.Run, cfg Config) {
 	}
 	// ---- aggregator
 	aexec := world.NewExecDouble()
+	if cfg.ExecDelayUs > 0 {
+		var emu sync.Mutex
+		erng := rand.New(rand.NewSource(cfg.Seed + 2))
+		aexec.Delay = func(kind string) {
+			if kind != "exec" {
+				return
+			}
+			emu.Lock()
+			d := time.Duration(erng.Intn(cfg.ExecDelayUs+1)) * time.Microsecond
+			emu.Unlock()
+			time.Sleep(d)
+		}
+	}
 	aim := world.NewImage()
 	ads := world.NewMemDS(aim)
 	ads.Yield = yield
@@ -387,6 +402,9 @@ func runUniverse(r *vk.Run, cfg Config) {
 			if aexec.MempoolLen() > 200 {
 				time.Sleep(cfg.BlockTime)
 			}
+			if cfg.InjectGaps && i%25 == 0 {
+				time.Sleep(5 * cfg.BlockTime)
+			}
 		}
 	}()
 	// observers: sample cross-loop invariants while everything runs
@@ -408,7 +426,18 @@ func runUniverse(r *vk.Run, cfg Config) {
 			sa, sf := agg.M.GetLastState(), full.M.GetLastState()
 			_, _ = agg.M.IsDAIncluded(ctx, dA+1)
 			_, _ = full.M.IsDAIncluded(ctx, dF+1)
-			_, _, _, _ = agg.M.VerifWatermarks()
+			// the submission watermarks are read first, the chain height afterwards: the height only grows, so a
+			// watermark above the later height was above the chain when it was read
+			lh, ld, _, _ := agg.M.VerifWatermarks()
+			ha2, _ := agg.Store.Height(ctx)
+			r.Hit("live-watermarks-below-height")
+			if lh > ha2 || ld > ha2 {
+				obsMu.Lock()
+				if len(obsViol) < 4 {
+					obsViol = append(obsViol, fmt.Sprintf("a last-submitted watermark ran ahead of the chain while running: headers %d, data %d, chain height read afterwards %d", lh, ld, ha2))
+				}
+				obsMu.Unlock()
+			}
 			r.Hit("live-monotone")
 			_, _ = sa, sf // read for the race detector only: the two reads are not atomic with the height reads above
 			obsMu.Lock()
